@@ -129,6 +129,14 @@ func validatorSources() []vsrc {
 		{"struct InitDefaults fills a map with an entry failing Validate (pointer receiver)", ptd("cat:c04_dr"), tvS(&gen.TV{Nil: true}, tvI(0)), nil, objOf("m", objOf("dflt", gen.Str("x"))), objOf("m", objOf("j", gen.Str("x")))},
 		{"struct InitDefaults fills an array with an element failing Validate (pointer receiver)", ptd("cat:c04_da"), tvS(tvS(&gen.TV{U: 1}, &gen.TV{U: 1}), tvI(0)), nil, objOf("a", gen.List(num(1), num(1))), objOf("n", num(1))},
 		{"map InitDefaults inserts an entry failing the element's Validate (pointer receiver)", ptd("cat:c04_mq"), tvMap("k", tvI(1)), tvMap("k", tvI(-1)), objOf("dflt", num(1)), objOf("j", num(1))},
+		// InitDefaults storing ONE object at two places; the tag of the second place rejects it (the 'good' setting overrides
+		// that place, the 'bad' one the other place)
+		{"struct InitDefaults stores one *int in two fields with different bounds", ptd("cat:c04_sa"), tvS(tvPtr(tvI(1)), tvPtr(tvI(20))), nil, objOf("hard", num(20)), objOf("soft", num(3))},
+		{"struct InitDefaults stores one *int as a list element and in a tagged field", ptd("cat:c04_se"), tvS(tvS(tvPtr(tvI(1))), tvPtr(tvI(20))), nil, objOf("hard", num(20)), objOf("all", gen.List(num(1)))},
+		{"struct InitDefaults stores one *Duration as a map entry and in a tagged field", ptd("cat:c04_sk"), tvS(tvMap("k", tvPtr(tvI(sec))), tvPtr(tvI(sec))), nil, objOf("max", gen.Str("1s")), objOf("m", objOf("j", gen.Str("1s")))},
+		{"struct InitDefaults stores one empty slice in two fields, the second required", ptd("cat:c04_sl"), tvS(tvS(&gen.TV{S: "x"}), tvS(&gen.TV{S: "x"})), nil, objOf("b", gen.List(gen.Str("x"))), objOf("a", gen.List(gen.Str("x")))},
+		{"struct InitDefaults stores one empty map in two fields, the second required", ptd("cat:c04_sm"), tvS(tvMap("k", &gen.TV{S: "x"}), tvMap("k", &gen.TV{S: "x"})), nil, objOf("b", objOf("k", gen.Str("x"))), objOf("a", gen.Obj())},
+		{"struct InitDefaults stores one *float64 behind a further pointer and in a tagged field", ptd("cat:c04_sp"), tvS(tvPtr(tvPtr(&gen.TV{F: "0x1p+00"})), tvPtr(&gen.TV{F: "0x1p+00"})), nil, objOf("max", gen.Float(1.5)), objOf("pp", gen.Float(1))},
 	}
 }
 
@@ -424,7 +432,7 @@ func hasNilVal(t *gen.Tree) bool {
 
 var subGrid = runlog.Register(&runlog.Sub[Case]{
 	Name: "placement-grid",
-	Rule: "deterministic cross product: 70 validator sources (each documented tag on each kind it is defined for, incl. duration parameters in unit syntax and as whole, fractional and negative numbers of seconds, integer parameters in hexadecimal and octal, spelt with blanks, and beyond 2^53, tags on pointers, regexps and collections of structs; Validate() with value receiver and with pointer receiver on each of: struct, named int, uint, float, string, bool, slice, array, map (pointer receiver also on an int64 derived from time.Duration); InitDefaults on named string / uint / float / bool and on a struct with valid or invalid defaults and either receiver of Validate(); structs and a map whose InitDefaults installs a list / array / map with one element rejected by the element's pointer-receiver Validate(); InitDefaults types whose defaults are valid or invalid, among them 12 whose InitDefaults installs one invalid map entry / list element / pointee / field that the 'good' setting overrides and the 'bad' setting leaves in place next to another key; required / nonzero tags on inline slices, arrays, named slices and maps - the inline map sources only while D55 is not open; nonzero, required and min on a field of type interface{} holding generic data - only while D61 is not open) x 39 placements (direct, *T, **T, nested, pointer to nested, inline struct, []T, [2]T, map[string]T, []*T, map[string]*T, *[]T, *map[string]T, *[2]T, [][]T; inline []T, inline [2]T, inline map[string]T, squash []T, pointer to a struct with inline []T; the Unpack target itself being map[string]T, []T, [2]T or, for map and list sources, T; and 15 placements through an interface, pre-filled values only: interface{} holding T, *T, **T, []T, map[string]T, map[string]interface{} holding *T, or a pointer to a struct with an interface{} field holding T; []interface{} holding T or *T, [2]interface{} holding *T, map[string]interface{} holding T or *T, inline map[string]interface{} holding *T, the targets map[string]interface{} holding T and []interface{} holding *T - the twin holds the twin value in the interface; a rejecting Validate() directly in an interface is constructed away while D59 is open, a setting for a struct / array held by value while D60 is open) x pre-filled value (zero / valid / invalid; for collections two elements with the invalid one first or last) x configuration (absent, nil, valid, invalid, empty container, partial mention of a collection, another key) x delivery (literal / whole setting through ${r0}; literal only for collection targets) x, for a pre-filled list placement with a non-empty literal list setting, the global list policy (none, replace, append, prepend, replace arrays only); same oracle as the random search. Non-trivial and distinct as there. The enumeration is complete for this finite product.",
+	Rule: "deterministic cross product: 76 validator sources (each documented tag on each kind it is defined for, incl. duration parameters in unit syntax and as whole, fractional and negative numbers of seconds, integer parameters in hexadecimal and octal, spelt with blanks, and beyond 2^53, tags on pointers, regexps and collections of structs; Validate() with value receiver and with pointer receiver on each of: struct, named int, uint, float, string, bool, slice, array, map (pointer receiver also on an int64 derived from time.Duration); InitDefaults on named string / uint / float / bool and on a struct with valid or invalid defaults and either receiver of Validate(); structs and a map whose InitDefaults installs a list / array / map with one element rejected by the element's pointer-receiver Validate(); InitDefaults types whose defaults are valid or invalid, among them 12 whose InitDefaults installs one invalid map entry / list element / pointee / field that the 'good' setting overrides and the 'bad' setting leaves in place next to another key, and 6 whose InitDefaults stores ONE object at two places whose validators differ - one *int in two fields with different bounds, as a list element and in a tagged field, one *Duration as a map entry and in a tagged field, one *float64 behind a further pointer and in a tagged field, one empty slice / one empty map in two fields the second of which is required: the second place rejects the shared default, the 'good' setting overrides that place, the 'bad' one the other place; required / nonzero tags on inline slices, arrays, named slices and maps - the inline map sources only while D55 is not open; nonzero, required and min on a field of type interface{} holding generic data - only while D61 is not open) x 39 placements (direct, *T, **T, nested, pointer to nested, inline struct, []T, [2]T, map[string]T, []*T, map[string]*T, *[]T, *map[string]T, *[2]T, [][]T; inline []T, inline [2]T, inline map[string]T, squash []T, pointer to a struct with inline []T; the Unpack target itself being map[string]T, []T, [2]T or, for map and list sources, T; and 15 placements through an interface, pre-filled values only: interface{} holding T, *T, **T, []T, map[string]T, map[string]interface{} holding *T, or a pointer to a struct with an interface{} field holding T; []interface{} holding T or *T, [2]interface{} holding *T, map[string]interface{} holding T or *T, inline map[string]interface{} holding *T, the targets map[string]interface{} holding T and []interface{} holding *T - the twin holds the twin value in the interface; a rejecting Validate() directly in an interface is constructed away while D59 is open, a setting for a struct / array held by value while D60 is open) x pre-filled value (zero / valid / invalid; for collections two elements with the invalid one first or last) x configuration (absent, nil, valid, invalid, empty container, partial mention of a collection, another key) x delivery (literal / whole setting through ${r0}; literal only for collection targets) x, for a pre-filled list placement with a non-empty literal list setting, the global list policy (none, replace, append, prepend, replace arrays only); same oracle as the random search. Non-trivial and distinct as there. The enumeration is complete for this finite product.",
 	Enum: enumGrid,
 	Run:  runCase,
 })
